@@ -183,9 +183,7 @@ Enabled(ty, regs, ev) ==
           [] ev.op = "tan" ->
                 /\ GElem(ty, "sin", a) /\ GElem(ty, "cos", a)
                 /\ GDiv(ty, B!ElemB(ty, "sin", a), B!ElemB(ty, "cos", a))
-          [] ev.op = "tanh" ->
-                /\ GElem(ty, "sinh", a) /\ GElem(ty, "cosh", a)
-                /\ GDiv(ty, B!ElemB(ty, "sinh", a), B!ElemB(ty, "cosh", a))
+          [] ev.op = "tanh" -> GElem(ty, "tanh", a)
           [] ev.op \in ExactElemFns -> GElem(ty, ev.op, a)
           [] ev.op = "powi" -> GPowi(ty, a, ev.n)
           [] ev.op = "powf" -> GPowf(ty, a, ev.s)
